@@ -597,9 +597,14 @@ def known_findings(kf, violations, repo, tier):
         still = bool(res.get("reproduced"))
         covers = []
         if still:
-            for oid in f.get("covers", [f["obligation"]]):
-                if oid in vio and replay({"property": "C04", "obligation": oid, "repo": repo}).get("reproduced"):
-                    covers.append(oid)
+            import fnmatch
+            for oid in vio:
+                # the finding covers a decode site of its file only when that site's own replay fails by the recorded cause
+                # (a document-declared charset); site ids are ordinals, so the match is by pattern, not by a fixed id
+                if any(fnmatch.fnmatchcase(oid, pat) for pat in f.get("covers", [f["obligation"]])):
+                    r = replay({"property": "C04", "obligation": oid, "repo": repo})
+                    if r.get("reproduced") and "declared_charset" in (r.get("inputs") or {}):
+                        covers.append(oid)
         out.append({"finding": f["id"], "still_fails": still, "line": f"{f['id']}: {f['what']}", "covers": covers,
                     "exclusion": f.get("exclusion"), "witness_replay": res.get("observed", res.get("note", ""))})
     return out
